@@ -14,7 +14,7 @@
    the order of checks in every handler and what each failure raises, the state pollution a raising
    handler leaves behind, negotiate(), the (direction, epoch, suite, secret) sequence of
    update_traffic_key_cb.  Bytes = list Z, exceptions are outcomes.  No proofs in this file. *)
-From AQ Require Import lib.Base gen.TlsDispatch.
+From AQ Require Import lib.Base lib.Tok gen.TlsDispatch.
 
 Definition bytes := list Z.
 
@@ -511,6 +511,38 @@ Fixpoint server_kex (c : cfg) (l : list key_share) : pres (option (Z * bytes * b
       else server_kex c r
   end.
 
+(* the server's flight once parameters, key schedule and key exchange are settled (second half of
+   _server_handle_hello) *)
+Definition server_flight (c : cfg) (s5 : tst) (sid : bytes) (suite comp sigalg version : Z) (kex_mode : option Z)
+                         (psk : bool) (g : Z) (pubk shared : bytes) : result :=
+  let shm := o_build_sh O (mkSH (f_random c) sid suite comp (Some (g, pubk)) (if psk then Some 0 else None) (Some version)) in
+  let k1 := ks_extract (ks_update (the_ks s5) shm) (Some shared) in
+  let s6 := add_key (set_ks s5 k1) DIR_ENCRYPT EP_HANDSHAKE (k_suite k1) (ks_derive k1 L_s_hs_traffic) in
+  let s7 := add_key s6 DIR_DECRYPT EP_HANDSHAKE (k_suite k1) (ks_derive k1 L_c_hs_traffic) in
+  let eem := o_build_ee O (mkEE (t_alpn s7) (t_early s7) (t_ext s7)) in
+  let k2 := ks_update k1 eem in
+  let '(k3, authmsgs) :=
+    if psk then (k2, []) else
+    let '(ka, crl) := if f_reqcert c
+                      then let crm := o_build_cr O (mkCR [] (Some (f_sigalgs c))) in (ks_update k2 crm, [crm])
+                      else (k2, []) in
+    let ctm := o_build_ct O (mkCT [] (map (fun d => (d, [])) (f_chain c))) in
+    let kb := ks_update ka ctm in
+    let cvm := o_build_cv O (mkCV sigalg (o_sign O (f_key c) sigalg (ks_cv_data kb SERVER_CONTEXT_STRING))) in
+    (ks_update kb cvm, crl ++ [ctm; cvm]) in
+  let finm := o_build_fin O (ks_finished k3 (t_enc s7)) in
+  let k4 := ks_update k3 finm in
+  let s8 := set_ks s7 k4 in
+  if negb (k_gen k4 =? 2) then (OExn EX_ASSERT, s8, []) else
+  let k5 := ks_extract k4 None in
+  let s9 := add_key (set_ks s8 k5) DIR_ENCRYPT EP_ONE_RTT (k_suite k5) (ks_derive k5 L_s_ap_traffic) in
+  let s10 := mkT (t_state s9) (t_ks s9) (t_kpsk s9) (t_kproxy s9) (t_resumed s9) (t_alpn s9) (t_early s9) (t_creq s9)
+                 (t_peer s9) (t_enc s9) (t_dec s9) (ks_derive k5 L_c_ap_traffic) (t_expected s9) (t_recv_ext s9) (t_ext s9)
+                 kex_mode (t_keys s9) in
+  let outm := (EP_INITIAL, shm) :: map (fun x => (EP_HANDSHAKE, x)) ([eem] ++ authmsgs ++ [finm]) in
+  if f_reqcert c then (OOk, set_state s10 SERVER_EXPECT_CERTIFICATE, outm)
+  else (OOk, server_expect_finished s10, outm).
+
 Definition server_handle_hello (c : cfg) (s : tst) (m : bytes) : result :=
   with_parse s (o_parse_ch O m) (fun v =>
   match negotiate memz (f_suites c) (ch_suites v) with None => (OAlert AD_handshake_failure, s, []) | Some suite =>
@@ -572,34 +604,7 @@ Definition server_handle_hello (c : cfg) (s : tst) (m : bytes) : result :=
   with_parse s5 (server_kex c (match ch_key_share v with Some l => l | None => [] end)) (fun kx =>
   match kx with
   | None => (OAlert AD_handshake_failure, s5, [])
-  | Some (g, pubk, shared) =>
-  let shm := o_build_sh O (mkSH (f_random c) (ch_sid v) suite comp (Some (g, pubk)) (if psk then Some 0 else None) (Some version)) in
-  let k1 := ks_extract (ks_update (the_ks s5) shm) (Some shared) in
-  let s6 := add_key (set_ks s5 k1) DIR_ENCRYPT EP_HANDSHAKE (k_suite k1) (ks_derive k1 L_s_hs_traffic) in
-  let s7 := add_key s6 DIR_DECRYPT EP_HANDSHAKE (k_suite k1) (ks_derive k1 L_c_hs_traffic) in
-  let eem := o_build_ee O (mkEE (t_alpn s7) (t_early s7) (t_ext s7)) in
-  let k2 := ks_update k1 eem in
-  let '(k3, authmsgs) :=
-    if psk then (k2, []) else
-    let '(ka, crl) := if f_reqcert c
-                      then let crm := o_build_cr O (mkCR [] (Some (f_sigalgs c))) in (ks_update k2 crm, [crm])
-                      else (k2, []) in
-    let ctm := o_build_ct O (mkCT [] (map (fun d => (d, [])) (f_chain c))) in
-    let kb := ks_update ka ctm in
-    let cvm := o_build_cv O (mkCV sigalg (o_sign O (f_key c) sigalg (ks_cv_data kb SERVER_CONTEXT_STRING))) in
-    (ks_update kb cvm, crl ++ [ctm; cvm]) in
-  let finm := o_build_fin O (ks_finished k3 (t_enc s7)) in
-  let k4 := ks_update k3 finm in
-  let s8 := set_ks s7 k4 in
-  if negb (k_gen k4 =? 2) then (OExn EX_ASSERT, s8, []) else
-  let k5 := ks_extract k4 None in
-  let s9 := add_key (set_ks s8 k5) DIR_ENCRYPT EP_ONE_RTT (k_suite k5) (ks_derive k5 L_s_ap_traffic) in
-  let s10 := mkT (t_state s9) (t_ks s9) (t_kpsk s9) (t_kproxy s9) (t_resumed s9) (t_alpn s9) (t_early s9) (t_creq s9)
-                 (t_peer s9) (t_enc s9) (t_dec s9) (ks_derive k5 L_c_ap_traffic) (t_expected s9) (t_recv_ext s9) (t_ext s9)
-                 kex_mode (t_keys s9) in
-  let outm := (EP_INITIAL, shm) :: map (fun x => (EP_HANDSHAKE, x)) ([eem] ++ authmsgs ++ [finm]) in
-  if f_reqcert c then (OOk, set_state s10 SERVER_EXPECT_CERTIFICATE, outm)
-  else (OOk, server_expect_finished s10, outm)
+  | Some (g, pubk, shared) => server_flight c s5 (ch_sid v) suite comp sigalg version kex_mode psk g pubk shared
   end)))
   end end end end).
 
@@ -725,3 +730,90 @@ Fixpoint server_choose_version (supported : list Z) (current : Z) (avail : list 
   end.
 Definition server_negotiated_version (supported : list Z) (current : Z) (vi : option (Z * list Z)) : Z :=
   match vi with Some (_, avail) => server_choose_version supported current avail | None => current end.
+
+(* ---------- executable interface ---------------------------------------------------------------------------
+   The negotiation decisions of the model, run side by side with the implementation (harness/props/c03.py):
+     5 <server cfg> <client hello view>   the model's server_handle_hello on a ClientHello with these option lists, with
+                                          oracles that always succeed: outcome kind, value, negotiated suite, ALPN
+     1 current n supported.. hasvi n avail..      server_negotiated_version
+     2 current n supported.. n vn..               client_receive_vn: 0 ignored | 1 no common version | 2 v
+     3 is_client <opt bytes>x3 cpv <tp>           tp_check
+   lists: n x1..xn; optional things: 0 | 1 <thing>; byte strings: n b1..bn *)
+Definition tk_bytes := tk_list.
+Fixpoint tk_blist_n (n : nat) (t : list Z) : list bytes * list Z :=
+  match n with
+  | O => ([], t)
+  | S n' => let '(b, t1) := tk_bytes t in let '(r, t2) := tk_blist_n n' t1 in (b :: r, t2)
+  end.
+Definition tk_blist (t : list Z) : list bytes * list Z :=
+  match t with n :: t' => tk_blist_n (Z.to_nat n) t' | [] => ([], []) end.
+Definition tk_optl {A} (rd : list Z -> A * list Z) (t : list Z) : option A * list Z :=
+  match t with
+  | 0 :: t' => (None, t')
+  | _ :: t' => let '(v, t'') := rd t' in (Some v, t'')
+  | [] => (None, [])
+  end.
+
+Definition exec_oracles (v : ch_view) : oracles :=
+  mkO (fun a _ => [a]) (fun a _ _ => [a]) (fun a _ _ => [a]) (fun a _ _ _ => [a])
+      (fun _ p => p) (fun _ _ => 1) (fun _ _ _ => Some [])
+      (fun _ _ _ => []) (fun _ _ _ _ => true) (fun _ => true) (fun _ => 2) (fun _ _ => 0)
+      (fun _ => POk v) (fun _ => PAlert 50) (fun _ => PAlert 50) (fun _ => PAlert 50) (fun _ => PAlert 50)
+      (fun _ => PAlert 50) (fun _ => PAlert 50) (fun _ => PAlert 50)
+      (fun _ => []) (fun _ => []) (fun _ => []) (fun _ => []) (fun _ => []) (fun _ => []) (fun _ => []).
+
+Definition out_outcome (o : outcome) : list Z :=
+  match o with OOk => [0; 0] | OAlert d => [1; d] | OExn k => [2; k] | OQuic c => [3; c] end.
+
+Definition exec_server_hello (t : list Z) : list Z :=
+  let '(s_suites, t) := tk_list t in
+  let '(s_keysig, t) := tk_list t in
+  let '(s_versions, t) := tk_list t in
+  let '(s_alpn, t) := tk_optl tk_blist t in
+  let '(c_suites, t) := tk_list t in
+  let '(c_sigalgs, t) := tk_optl tk_list t in
+  let '(c_versions, t) := tk_optl tk_list t in
+  let '(c_alpn, t) := tk_optl tk_blist t in
+  let '(c_groups, t) := tk_list t in
+  let v := mkCH [] [] c_suites [0] c_alpn false (Some (map (fun g => (g, [1])) c_groups)) None None None c_sigalgs
+                (Some c_groups) c_versions [] in
+  let c := mkCfg s_suites [0] s_versions [] [1] s_alpn [] [[1]] [1] s_keysig [] [] None None false None false [] false false
+                 (fun _ => None) (fun _ => [1]) (fun _ _ => (0, None)) in
+  let '(o, s', _) := server_handle_hello (exec_oracles v) c (init_server c) [1; 0; 0; 0] in
+  out_outcome o ++ [match t_ks s' with Some k => k_suite k | None => 0 end] ++
+  match t_alpn s' with Some a => 1 :: out_list a | None => [0] end.
+
+Definition tk_optb (t : list Z) : option bytes * list Z := tk_optl tk_bytes t.
+
+Definition exec_c03 (t : list Z) : list Z :=
+  match t with
+  | 5 :: t' => exec_server_hello t'
+  | 1 :: current :: t' =>
+      let '(supported, t1) := tk_list t' in
+      let '(vi, _) := tk_optl tk_list t1 in
+      [server_negotiated_version supported current (match vi with Some a => Some (0, a) | None => None end)]
+  | 2 :: current :: t' =>
+      let '(supported, t1) := tk_list t' in
+      let '(vn, _) := tk_list t1 in
+      match client_receive_vn supported current vn with
+      | None => [0] | Some None => [1] | Some (Some v) => [2; v]
+      end
+  | 3 :: is_client :: t' =>
+      let '(iscid, t1) := tk_optb t' in
+      let '(odcid, t2) := tk_optb t1 in
+      let '(rscid, t3) := tk_optb t2 in
+      match t3 with
+      | cpv :: t4 =>
+          let '(p_odcid, t5) := tk_optb t4 in
+          let '(p_iscid, t6) := tk_optb t5 in
+          let '(p_rscid, t7) := tk_optb t6 in
+          let vi := match t7 with
+                    | 1 :: chosen :: t8 => Some (chosen, fst (tk_list t8))
+                    | _ => None
+                    end in
+          [tp_check (z2b is_client) iscid odcid rscid cpv (mkTP p_odcid p_iscid p_rscid vi)]
+      | [] => []
+      end
+  | _ => []
+  end.
+(* EXTRACT: exec_c03 *)
